@@ -62,8 +62,9 @@ template <class TR> struct ConvexChain {
   typedef typename TR::D D;
   int n;
   std::string dom;
-  bool twin_reported, overload_reported;
-  ConvexChain() : n(0), twin_reported(false), overload_reported(false) {}
+  bool twin_reported, overload_reported, across_reported, have_cur, have_prev;
+  BMeas cur_y_cert, prev_y_cert;
+  ConvexChain() : n(0), twin_reported(false), overload_reported(false), across_reported(false), have_cur(false), have_prev(false) {}
 
   static Sys obs(const D& d, bool minimized = false) { D c(d); int n = d.space_dimension(); return ref::conv(minimized ? c.minimized_constraints() : c.constraints(), n); }
 
@@ -103,6 +104,7 @@ template <class TR> struct ConvexChain {
         if (nl != b.lindim) { txt = "line count of the minimized generators differs from the lineality dimension"; return -2; }
       }
       txt = "y " + show(by) + " result " + show(bz);
+      cur_y_cert = by; have_cur = true;
       return bhrz03_decrease(by, bz);
     }
     if (op.cert == CERT_BOXT) {
@@ -143,8 +145,12 @@ template <class TR> struct ConvexChain {
     if (changed) hx::count("widened." + op.name);
     // ---- certificate ----
     if (op.cert != CERT_NONE && !stationary) {
-      std::string txt; checked(); hx::count("certificate_checks");
+      std::string txt; checked(); hx::count("certificate_checks"); have_cur = false;
       int dec = own_decrease(op, y, z, SY, SZ, txt);
+      // along the chain: the y used now must be below the y used at the previous non-stationary step, whatever its representation
+      if (op.cert == CERT_BHRZ03 && have_cur && have_prev && !across_reported) { checked(); hx::count("certificate_chain_checks");
+        if (bhrz03_decrease(prev_y_cert, cur_y_cert) != 1) { across_reported = true; violation(key("certificate", op.name, TR::nnc() ? ":across-representations-nnc" : ":across-representations"), "the certificate of the iterate did not decrease between two non-stationary steps: previous iterate " + show(prev_y_cert) + ", current iterate " + show(cur_y_cert) + " (a strictly larger set, possibly another representation); y=" + show(SY)); } }
+      if (op.cert == CERT_BHRZ03 && have_cur) { prev_y_cert = cur_y_cert; have_prev = true; }
       if (dec == -2) { hx::inconclusive("certificate_descriptions"); }
       else if (dec != 1) { violation(key("certificate", op.name, TR::nnc() ? ":nnc-counts" : ""), "non-stationary step without strict decrease of the recomputed certificate: " + txt + "; y=" + show(SY) + " x=" + show(SX) + " result=" + show(SZ)); return false; }
       if (!y_empty) {
@@ -224,9 +230,11 @@ template <class TR> struct ConvexChain {
         if (!sys_equal(n, SZ, SZ2)) {
           Vec w; std::string side;
           if (!sys_included(n, SZ, SZ2, &w)) side = "in the original result only"; else { sys_included(n, SZ2, SZ, &w); side = "in the twin result only"; }
-          violation(key("twin", op.name, TR::nnc() ? ":nnc-representation" : ""), "x " + show(SX) + " y " + show(SY) + ": result " + show(SZ) + " but on twins (x:" + dx + ", y:" + dy + ") " + show(SZ2) + "; point " + show(w) + " " + side);
+          // BHRZ03's certificate counts null coordinates of rays, which are not canonical modulo a lineality space
+          std::string cls = TR::nnc() ? ":nnc-representation" : ((lineality_dim(n, SX) > 0 || lineality_dim(n, SY) > 0) && !x_empty && !y_empty && op.cert == CERT_BHRZ03 ? ":nontrivial-lineality" : "");
+          violation(key("twin", op.name, cls), "x " + show(SX) + " y " + show(SY) + ": result " + show(SZ) + " but on twins (x:" + dx + ", y:" + dy + ") " + show(SZ2) + "; point " + show(w) + " " + side);
           twin_reported = true;
-          if (!TR::nnc()) return false;
+          if (cls.empty()) return false;
         }
       }
     }
